@@ -338,6 +338,27 @@ func H_C17_comp() {
 			vassert(err == nil && vSameBytes(x, bs), "[]byte holds the lob bytes")
 		}
 		vcover("filled")
+	case 33: // []int8 <- a list longer than the slice's first capacity (growth steps at 4 and 6 elements), also into a preallocated slice
+		n := vnondetInt(3, vparam("n", 7))
+		var body []byte
+		var vals []int8
+		for i := 0; i < n; i++ {
+			m := vnondetU8() & 0x7F
+			vassume(m != 0)
+			body = vCat(body, []byte{0x21, m})
+			vals = append(vals, int8(m))
+		}
+		var x []int8
+		if vnondetBool() {
+			x = make([]int8, 0, 2)
+		}
+		err := NewDecoder(NewReaderBytes(vWithBVM(vTLV(0xB0, body...)))).DecodeTo(&x)
+		vassert(err == nil, "a list of fitting ints is decoded")
+		vassert(len(x) == n, "the slice has one element per Ion value")
+		for i := range x {
+			vassert(x[i] == vals[i], "elements survive the growth of the slice, in order")
+		}
+		vcover("filled")
 	default: // 32: Decimal / Timestamp targets <- scalar sources incl. a decimal and a timestamp
 		var doc []byte
 		var typ Type
